@@ -47,6 +47,8 @@ Ret(o, a, r) == op' = o /\ arg' = a /\ res' = r /\ depth' = depth + 1
 
 SetOverride(t) == override' = t /\ Ret("set", t, None)
 Clear == override' = None /\ Ret("clear", None, None)
+\* jumps of many centuries that carry a microsecond: still exact (a timedelta, not a float)
+FarDeltas == {<<739000, 0, 1>>, <<739000, 3600, 999999>>, <<2900000, 0, 1>>}
 \* advance_time_delta(timedelta) / advance_time_seconds(seconds): exact addition
 AdvanceDelta(d) == override # None /\ override' = Add(override, d) /\ Ret("advance_delta", d, None)
 AdvanceSeconds(d) == override # None /\ override' = Add(override, d) /\ Ret("advance_seconds", d, None)
@@ -59,6 +61,7 @@ UtcNowTs(micro) == override # None /\ UNCHANGED override
 Next == depth < MaxDepth /\
         \/ (\E t \in Lattice : SetOverride(t)) \/ Clear
         \/ (\E d \in Deltas : AdvanceDelta(d) \/ AdvanceSeconds(d))
+        \/ (\E d \in FarDeltas : override # None /\ override[1] >= 0 /\ override[1] <= 2 /\ AdvanceDelta(d))
         \/ UtcNow \/ UtcNowTs(TRUE) \/ UtcNowTs(FALSE)
 Spec == Init /\ [][Next]_vars
 
@@ -85,9 +88,17 @@ FarRel == {<<d, 0, u>> : d \in FarDays, u \in {0, 1, -1}}
 FarCases == {[now |-> <<1, 0, 0>>, rel |-> r, off |-> o, form |-> f,
               thr |-> <<IF r[1] < 0 THEN -r[1] ELSE r[1], 0, 0>>] :
                r \in FarRel, o \in {0, 90, -1439}, f \in Forms}
+\* the ends of the representable range (datetime.min / datetime.max relative to the base date):
+\* the comparisons are differences of instants and must not need an instant outside the range
+MaxInstant == <<2912809, 86399, 999999>>
+MinInstant == <<-739249, 0, 0>>
+EdgeCases == {[now |-> Sub(MaxInstant, <<0, 30, 0>>), rel |-> <<0, 30, 0>>, off |-> 0, form |-> f, thr |-> s] :
+                f \in {"naive", "aware"}, s \in {<<0, 60, 0>>, <<0, 30, 0>>, <<0, 29, 999999>>, <<0, -1, 0>>}}
+        \cup {[now |-> Add(MinInstant, <<0, 30, 0>>), rel |-> <<0, -30, 0>>, off |-> 0, form |-> f, thr |-> s] :
+                f \in {"naive", "aware"}, s \in {<<0, 60, 0>>, <<0, 30, 0>>, <<0, 29, 999999>>, <<0, -1, 0>>}}
 CmpCases == {[now |-> n, rel |-> r, off |-> o, form |-> f, thr |-> s] :
                n \in Lattice, r \in Rel, o \in Offsets, f \in Forms, s \in Thresholds}
-            \cup FarCases
+            \cup FarCases \cup EdgeCases
 \* the UTC instant t denotes is now + rel (gamma renders it in the zone `off`)
 TUtc(x) == Add(x.now, x.rel)
 \* is_older_than(t, s)  <=>  now - t > s
